@@ -271,7 +271,39 @@ func runC10(c *Check) {
 						}
 					}
 				}
-				if sentinel == "" {
+				// the comparison with the current key state must admit equality: the restored value is
+				// seq+1, so an entry whose number equals the running state must advance it too
+				strict := ""
+				for _, f := range g.NecessaryEdges(nodeSet([]*Node{st})) {
+					t := f.Cond
+					if t.Op != "bin" {
+						continue
+					}
+					a, b := t.Args[0], t.Args[1]
+					aSeq := p.DeepContains(a, func(x *Term) bool { return x.IsCall("strconv.ParseUint") }, 1)
+					bSeq := p.DeepContains(b, func(x *Term) bool { return x.IsCall("strconv.ParseUint") }, 1)
+					aState := a.String() == recvL+"."+sf
+					bState := b.String() == recvL+"."+sf
+					var op string
+					switch {
+					case aSeq && bState:
+						op = t.Name
+					case bSeq && aState: // state OP seq  ==  seq OP' state
+						op = map[string]string{"<": ">", "<=": ">=", ">": "<", ">=": "<=", "==": "==", "!=": "!="}[t.Name]
+					default:
+						continue
+					}
+					if !f.Pol {
+						op = map[string]string{"<": ">=", "<=": ">", ">": "<=", ">=": "<", "==": "!=", "!=": "=="}[op]
+					}
+					// op now reads: seq <op> state holds on the path to the restore
+					if op == ">" {
+						strict = f.String()
+					}
+				}
+				if sentinel == "" && strict != "" {
+					c.Bad("C10-R4", "Load ⟂ restores-"+sf, fn, p.InstrPos(st.In), "the restore of "+sf+" to seq+1 happens only when the reloaded sequence number is strictly greater than the running state ("+trunc(strict, 100)+"): an entry whose number equals the state does not advance it, so after a restart the next accepted batch re-uses the key of the newest pending batch and overwrites it", nil)
+				} else if sentinel == "" {
 					c.OK("C10-R4", "Load ⟂ restores-"+sf, fn, p.InstrPos(st.In), sf+" is restored from the reloaded sequence keys with no sentinel test on the sequence value", true)
 				} else {
 					c.Bad("C10-R4", "Load ⟂ restores-"+sf, fn, p.InstrPos(st.In), "the restore of "+sf+" is guarded by a comparison of the reloaded sequence number with 0 ("+trunc(sentinel, 100)+"), but 0 is a legitimate sequence number (the first key ever written): with only entry 0 pending at restart the next accepted batch re-uses key 0 and overwrites it", nil)
